@@ -1,5 +1,5 @@
 """C04 - Every connection is answered; no input can crash the server (DESIGN.md section 4, C04)."""
-import os, re, threading
+import os, re, threading, time
 from concurrent.futures import ThreadPoolExecutor
 from .. import core, serve, oracles, server, httpstrict
 from ..gen import tree as treegen, req as reqgen
@@ -40,6 +40,8 @@ def build_inputs(c, t, rng):
             inputs.append(({"route": "static-each-file", "el": "none", "kind": "valid"}, ("GET %s HTTP/1.1\r\nHost: localhost\r\n\r\n" % f).encode("utf-8")))
     for kind, el, raw in reqgen.dictionary_requests(valid):
         inputs.append(({"route": "dictionary", "el": kind, "kind": kind, "always_b": kind.endswith("all-at-once")}, raw))
+    for kind, el, raw in reqgen.chunked_requests(valid):
+        inputs.append(({"route": "chunked", "el": el, "kind": kind}, raw))
     for kind, el, raw in reqgen.bombs(valid):
         inputs.append(({"route": "bomb", "el": kind.split(":")[0], "kind": kind, "always_b": True}, raw))
     # the same bombs for a server started with a larger (documented, configurable) request buffer
@@ -163,6 +165,8 @@ def run(c):
             st = fuzzlane.run(c, "C04", int(os.environ.get("VERIF_FUZZ_SECONDS", "300")), seeds, t.root, only_ops={"serve"})
             c.extra["libfuzzer_lane"] = st
             c.cls("libfuzzer", st.get("coverage_edges", 0) > 0)
+        c.need("requests at awkward calendar moments")
+        calendar(c, t)
         late_thread.join(120)
         if late_thread.is_alive() or "answers" not in late:
             c.inconc("the late-sender scenario did not finish: %s" % late.get("error", "still running"))
@@ -282,6 +286,73 @@ def late_senders(t, result):
         result["answers"] = out
         result["raw"] = raw
         lone_srv.cleanup()
+    finally:
+        srv.cleanup()
+
+
+def calendar(c, t):
+    """a server whose clock is moved to awkward moments of the calendar (LD_PRELOAD shim): the first seconds of the next six
+    years, leap day, the last seconds of a leap year, the 32-bit limits; at each of them valid requests must be answered.
+    Then: a request that waited in the queue while the clock moved on by more than a minute."""
+    import calendar as cal, datetime, socket
+    f = sorted(x for x in t.files if 30 < len(t.files[x]) < 3000)[0]
+    raws = [("GET %s HTTP/1.1\r\nHost: x\r\n\r\n" % f).encode(), b"GET /nope HTTP/1.1\r\nHost: x\r\n\r\n", ("HEAD %s HTTP/1.1\r\nHost: x\r\n\r\n" % f).encode()]
+    srv = server.Server(t.root, threads=2, virtual_time=True)
+    try:
+        if not srv.started:
+            c.inconc("server did not start under the clock shim")
+            return
+        if not srv.shift_path:
+            c.count("virtual_time_unavailable (no C compiler): calendar phase skipped")
+            c.seen("requests at awkward calendar moments")
+            return
+        year = datetime.datetime.utcnow().year
+        moments = []
+        for y in range(year + 1, year + 7):
+            moments.append(("new-year", cal.timegm((y, 1, 1, 0, 0, 20, 0, 0, 0))))
+        leap = next(y for y in range(year + 1, year + 9) if cal.isleap(y))
+        moments += [("leap-day", cal.timegm((leap, 2, 29, 12, 0, 0, 0, 0, 0))), ("end-of-leap-year", cal.timegm((leap, 12, 31, 23, 59, 50, 0, 0, 0))), ("new-year", cal.timegm((leap + 1, 1, 1, 0, 0, 5, 0, 0, 0))),
+                    ("2038", 2 ** 31 - 5), ("2038", 2 ** 31 + 5), ("century-non-leap", cal.timegm((2100, 2, 28, 23, 59, 55, 0, 0, 0))), ("century-non-leap", cal.timegm((2100, 3, 1, 0, 0, 5, 0, 0, 0))), ("2106", 2 ** 32 + 5)]
+        for name, ts in sorted(moments, key=lambda m: m[1]):
+            srv.advance_clock_to(ts)
+            for raw in raws:
+                data, end = srv.request(raw, timeout=10)
+                c.ev()
+                resp, errs = oracles.one_response(data, None, raw_request=raw)
+                if errs or resp is None:
+                    c.violation("C04:calendar:%s:%s" % (name, "no-response" if not data else "malformed"), "with the server's clock at %s UTC a valid request was answered %r (%s)" % (datetime.datetime.utcfromtimestamp(min(ts, 253402300799)).isoformat(), data[:50], errs[:1] or end),
+                                {"moment": name, "unix_time": ts, "request_b64": __import__("base64").b64encode(raw).decode()})
+                else:
+                    c.seen("requests at awkward calendar moments")
+            c.cls("calendar", name)
+            if not srv.alive():
+                c.violation("C04:calendar:%s:process-exited" % name, "the server exited with its clock at unix time %d" % ts, {"moment": name, "unix_time": ts})
+                return
+        # a connection that waits in the queue while more than a minute passes
+        for jump in (31, 61, 3700):
+            socks = [srv.connect() for _ in range(2)]
+            time.sleep(0.1)
+            q = srv.connect(timeout=20)
+            q.sendall(raws[0])
+            time.sleep(0.05)
+            srv.advance_clock(jump)
+            for s in socks:
+                s.close()
+            got = b""
+            try:
+                while True:
+                    b = q.recv(65536)
+                    if not b:
+                        break
+                    got += b
+            except (OSError, socket.timeout):
+                pass
+            q.close()
+            c.ev()
+            c.cls("queued-across-clock-jump", jump)
+            resp, errs = oracles.one_response(got, None, raw_request=raws[0])
+            if errs or resp is None or resp.status != 200:
+                c.violation("C04:queued-across-clock-jump:%s" % ("no-response" if not got else "status-%s" % (resp.status if resp else "?")), "a valid request that waited in the queue while the clock moved on by %d s was answered %r" % (jump, got[:50]), {"jump_s": jump})
     finally:
         srv.cleanup()
 
